@@ -2,23 +2,27 @@
 
 package websocket
 
-import "context"
+import (
+	"context"
+	"time"
+)
 
 // Verification hooks are compiled out unless the "verif" build tag is set.
 // Every call site is a single added line; these stubs are empty and inlinable.
 
 type verifState struct{}
 
-func (c *Conn) vInit()                              {}
-func (c *Conn) vEv(ev string, a, b, d, e int64)     {}
-func (c *Conn) vEvS(ev string, s string, a int64)   {}
-func (c *Conn) vErr(ev string, err error, a int64)  {}
-func (c *Conn) vObj(ev, kind string, o interface{}) {}
-func (c *Conn) vUse(ev string, o interface{})       {}
-func (c *Conn) vHdr(ev string, h header)            {}
-func (c *Conn) vCtl(ev string, op opcode, p []byte) {}
-func (m *mu) vEv(ev string, a int64)                {}
-func (c *Conn) vNcNew(r, w *mu, re, we *int64)      {}
-func vNcEntry(expired *int64)                       {}
-func vCtxID(ctx context.Context) int64              { return 0 }
-func vB(b bool) int64                               { return 0 }
+func (c *Conn) vInit()                               {}
+func (c *Conn) vEv(ev string, a, b, d, e int64)      {}
+func (c *Conn) vEvS(ev string, s string, a int64)    {}
+func (c *Conn) vErr(ev string, err error, a int64)   {}
+func (c *Conn) vObj(ev, kind string, o interface{})  {}
+func (c *Conn) vUse(ev string, o interface{})        {}
+func (c *Conn) vHdr(ev string, h header)             {}
+func (c *Conn) vCtl(ev string, op opcode, p []byte)  {}
+func (m *mu) vEv(ev string, a int64)                 {}
+func (c *Conn) vNcNew(r, w *mu, re, we *int64)       {}
+func (c *Conn) vNcT(ev string, a int64, t time.Time) {}
+func vNcEntry(expired *int64)                        {}
+func vCtxID(ctx context.Context) int64               { return 0 }
+func vB(b bool) int64                                { return 0 }
